@@ -18,6 +18,7 @@ package types
 
 import (
 	"fmt"
+	"sort"
 )
 
 type SSHKey struct {
@@ -68,6 +69,8 @@ func (s *SSHConfig) DecodeMapstructure(value interface{}) error {
 		result[i] = key
 		i++
 	}
+	// map iteration order is random: keep the keys in a stable order
+	sort.Slice(result, func(i, j int) bool { return result[i].ID < result[j].ID })
 	*s = result
 	return nil
 }
